@@ -637,6 +637,12 @@ class TaskScenario(ScenarioData):
         lowerLimit = self.project.dateToIdx(self.project["start"])
         upperLimit = self.project.dateToIdx(self.project["end"])
 
+        if self.currentSlotIdx < lowerLimit or self.currentSlotIdx > upperLimit:
+            # The dependency bound or pinned date lies outside the scheduling horizon:
+            # nothing can be placed there (and the slot tables do not reach that far)
+            self.isRunAway = True
+            return False
+
         previous_effort = self.doneEffort
         while self.scheduleSlot():
             # Track first booked slot for ALAP (when effort actually increases)
